@@ -21,19 +21,39 @@ def group_part(work, v, thorough):
             "singleflight_sample": vlib.read_ndjson_head(tf, 12), "_states": states, "_trans": trans, "_traces": res["traces"]}
 
 
+def flight_part(work, thorough):
+    """LoadFlight.tla: the loading Get composed with the shard's single-flight group (lookup, join or lead, lock, load and
+    store, unlock, finish) next to Set / Delete / losses on the same key. The repaired design (the call leaves the table
+    inside the loader's critical section) satisfies Served / OneLoader / Quiet / Returns; the design as it was (D21) must
+    violate Served."""
+    r = storelib.tlc_mc(work, "LoadFlightMC_big.cfg" if thorough else "LoadFlightMC.cfg", module="LoadFlight", tag="loadflight", workers=8)
+    p = vlib.run_tlc(work, "LoadFlight", "LoadFlightMC_pinned.cfg", workers=4, tag="loadflight_pinned", timeout=600)
+    vlib.tlc_must_pass(p, "LoadFlight pinned")
+    if p.violation != "Served":
+        raise vlib.MachineryError("LoadFlight.tla with Forget = FALSE should violate Served (D21), got %s" % p.violation)
+    return {"loadflight_states": r.distinct, "loadflight_transitions": r.generated, "loadflight_pinned_design_violates": p.violation,
+            "_states": r.distinct, "_trans": r.generated}
+
+
 def extra(work, v, thorough):
     g = group_part(work, v, thorough)
+    f = flight_part(work, thorough)
+    for k in ("_states", "_trans"):
+        g[k] = g.get(k, 0) + f.pop(k)
+    g.update(f)
     return g
 
 
 PLAN = {
     "api": True,
+    "lin": True,
     "mc": [("StoreMC_acct.cfg", False)],
     "sims": [],
     "drivers": [("TestVerif_StoreLoad", 40, 400, "store_load.ndjson", None),
                 ("TestVerif_StoreFree", 6, 30, "store_free.ndjson", None)],
     "extra": extra,
     "assumptions": [
+        "LoadFlight.tla composes the loading Get with the shard's single-flight table for one key (2 clients x 3 operations, 3 x 2 thorough): a value handed to a caller was held by the key, or produced by a loader invocation running, at some moment of that call; the late-join scenario holds the real leader at the hook point between its unlock and the table removal while the value is deleted / overwritten and deleted / expires, and a late caller then asks for the key",
         "Group.Do is stepped through the verif hook points of singleflight.go (scripted loader outcomes ok/err/panic/Goexit); at cache level loaders sleep 20-400 us so that callers and writers pile up",
         "cache level: loader runs per key must not overlap, a caller that missed gets the value of its own load or of a load that ran while it was waiting, the loaded value is stored with the loader's cost and TTL atomically with the load, a failed load stores nothing, and afterwards plain operations and a new load on the same key return",
     ],
